@@ -56,37 +56,35 @@ func CueValidate(query, cueFile, currentPath string) (tc CanBeAPart, err error) 
 		return nil, fmt.Errorf("missing parameter value")
 	}
 
+	// The caches, and the cue values kept in them, are shared by every caller: cue evaluates a
+	// value lazily and writes to its runtime while it is read, so the whole validation against a
+	// cached value is serialised, not only the cache look-ups.
+	cacheMu.Lock()
+	defer cacheMu.Unlock()
+
 	var ok bool
 
 	// mpath operations are cached to ensure speed of execution as this method is expected to be hit many times
 	var op Operation
-	cacheMu.Lock()
 	op, ok = mpathOpCache[query]
-	cacheMu.Unlock()
 	if !ok {
 		op, err = ParseString(query)
 		if err != nil {
 			return nil, fmt.Errorf("failed to parse mpath query: %w", err)
 		}
-		cacheMu.Lock()
 		mpathOpCache[query] = op
-		cacheMu.Unlock()
 	}
 
 	// cue values are cached to ensure speed of execution as this method is expected to be hit many times
 	var rootValue cue.Value
-	cacheMu.Lock()
 	rootValue, ok = cueValueCache[cueFile]
-	cacheMu.Unlock()
 	if !ok {
 		ctx := cuecontext.New()
 		rootValue = ctx.CompileString(cueFile)
 		if rootValue.Err() != nil {
 			return nil, fmt.Errorf("failed to parse cue file: %w", rootValue.Err())
 		}
-		cacheMu.Lock()
 		cueValueCache[cueFile] = rootValue
-		cacheMu.Unlock()
 	}
 
 	var blockedRootFields []string
